@@ -48,6 +48,10 @@ Clauses(e) ==
           <<"read-layout", (e.op = "ReadPsd" /\ ~e.err) => e.ret.layout = e.post.sides>>,
           <<"read-scaled-once", (e.op = "ReadPsd" /\ ~e.err) => e.ret.scaled = Abs!WantedScaled(e.post)>>,
           <<"read-length", (e.op = "ReadPsd" /\ ~e.err) => e.ret.len = e.axis.lenf>>,
+          \* get_converted_psd(s): the current estimate in layout s, whatever was stored before
+          <<"converted-fresh", (e.op = "GetConverted" /\ ~e.err) => e.ret.fresh>>,
+          <<"converted-layout", (e.op = "GetConverted" /\ ~e.err) => e.ret.layout = e.arg>>,
+          <<"converted-length", (e.op = "GetConverted" /\ ~e.err) => e.ret.len = Abs!SLen(e.arg, e.post.nfft)>>,
           <<"unchanged-value-changes-nothing",
                (IsSetter(e.op) /\ ~e.err /\ Abs!Succ(a, e.op, e.arg) = {a}) => e.post = a>> }
 
@@ -59,7 +63,7 @@ Next == /\ l <= Len(Trace)
            IN  /\ fails' = Failed(Clauses(e))
                /\ a' = e.post
                /\ axis' = e.axis
-               /\ ret' = IF e.op = "ReadPsd" /\ ~e.err THEN e.ret ELSE Abs!NoRead
+               /\ ret' = IF e.op \in {"ReadPsd", "GetConverted"} /\ ~e.err THEN e.ret ELSE Abs!NoRead
 
 Spec == Init /\ [][Next]_<<l, a, ret, axis, fails>>
 =============================================================================
